@@ -71,7 +71,7 @@ struct Expect {
     reply: Option<Option<u8>>,
 }
 
-fn expect(master_role: bool, self_en: bool, sec: &mut Sec, ctrl: u8, dst: u16, src: u16) -> Expect {
+fn expect(master_role: bool, self_en: bool, sec: &mut Sec, reset_by: Option<u16>, ctrl: u8, dst: u16, src: u16) -> Expect {
     let nothing = Expect {
         addressed: false,
         deliver: Some(false),
@@ -133,6 +133,14 @@ fn expect(master_role: bool, self_en: bool, sec: &mut Sec, ctrl: u8, dst: u16, s
             Sec::NotReset => Expect {
                 addressed: true,
                 deliver: Some(false),
+                reply: if broadcast { Some(None) } else { None },
+            },
+            // "delivered at most once per frame-count-bit toggle after a link reset" is an upper bound: a station that has
+            // not itself reset the link need not be served (one link state per primary station is as good as one per
+            // layer); only the broadcast rule and the at-most-once bound (checked by the caller) are asserted then
+            Sec::Reset(_) if reset_by.is_some() && reset_by != Some(src) => Expect {
+                addressed: true,
+                deliver: None,
                 reply: if broadcast { Some(None) } else { None },
             },
             Sec::Reset(exp) => {
@@ -208,6 +216,7 @@ fn exhaustive_table() -> (u64, Vec<J>, Option<(Fail, J)>) {
                                 sec = Sec::Reset(true);
                             }
                             // the same frame twice: the second pass sees the FCB toggle / repeat
+                            let mut deliveries = 0;
                             for pass in 0..2 {
                                 n += 1;
                                 let payload: Vec<u8> = if ctrl & 0x4F == 0x43 || ctrl & 0x4F == 0x44
@@ -217,7 +226,7 @@ fn exhaustive_table() -> (u64, Vec<J>, Option<(Fail, J)>) {
                                     vec![]
                                 };
                                 let frame = rl::encode(ctrl, *dst, *src, &payload);
-                                let e = expect(master_role, self_en, &mut sec, ctrl, *dst, *src);
+                                let e = expect(master_role, self_en, &mut sec, if start_reset { Some(1) } else { None }, ctrl, *dst, *src);
                                 let seen = feed(&mut layer, &frame);
                                 let js = J::o(vec![
                                     (
@@ -237,6 +246,12 @@ fn exhaustive_table() -> (u64, Vec<J>, Option<(Fail, J)>) {
                                 }
                                 let own_dir = if master_role { 0x80u8 } else { 0x00 };
                                 let mut bad: Option<String> = None;
+                                if seen.delivered.is_some() {
+                                    deliveries += 1;
+                                }
+                                if ctrl & 0x5F == 0x53 && deliveries > 1 {
+                                    bad = Some("the same confirmed user data frame (same frame count bit) was delivered twice".into());
+                                }
                                 if let Some(d) = e.deliver {
                                     if d != seen.delivered.is_some() {
                                         bad = Some(format!(
@@ -355,7 +370,7 @@ impl Prop for Fcb {
                 }
                 last_fcb = Some(*fcb);
             }
-            let e = expect(case.master_role, false, &mut sec, ctrl, dst, 1);
+            let e = expect(case.master_role, false, &mut sec, None, ctrl, dst, 1);
             let seen = feed(&mut layer, &rl::encode(ctrl, dst, 1, &payload));
             let own_dir = if case.master_role { 0x80u8 } else { 0x00 };
             if let Some(d) = e.deliver {
